@@ -17,7 +17,7 @@ MAX_DEPTH = 14
 
 
 class Node:
-    __slots__ = ('kind', 'val', 'args', 'kw', 'origin', 'nid', 'ho')
+    __slots__ = ('kind', 'val', 'args', 'kw', 'origin', 'nid', 'ho', 'op', 'owner')
     _count = 0
 
     def __init__(self, kind, val=None, args=(), kw=None, origin=None):
@@ -27,6 +27,8 @@ class Node:
         self.kw = kw or {}
         self.origin = origin
         self.ho = None
+        self.op = 0
+        self.owner = None
         Node._count += 1
         self.nid = Node._count
 
@@ -203,11 +205,17 @@ class Builder:
         self.gvars = {}       # (modname, name) -> Node    (dynamic writes + cache)
         self.trace = []       # every node, in creation order
         self.stack = []       # active FuncInfo / lambda nodes (recursion guard)
+        self.frames = []      # dynamic stack of frames (for path conditions)
         self.frame = None
         self.unknown_calls = {}
         self.notes = []
         self.call_sites = 0
         self.inlined = set()
+        self.cur_op = 0
+        self.ops = [{'kind': 'static', 'instance': None}]
+        self.shared_reads = []    # (location key, value Node, op, ast) reads of globals / shared objects
+        self.default_cache = {}
+        self.default_nodes = {}   # nid -> (FuncInfo, parameter name) of default-argument objects
         self.mutations = []   # (kind, receiver Node, ast node, FuncInfo): in-place updates
         self.assign_log = []  # (FuncInfo, ast.Name target, Node) for every plain-name assignment
         self.opaque = {}      # function fullname -> symbol name (result is a named dimensionless constant)
@@ -216,8 +224,28 @@ class Builder:
     def mk(self, kind, val=None, args=(), kw=None, at=None):
         fn = self.frame.func if self.frame is not None else None
         n = Node(kind, val, args, kw, origin=(fn, at))
+        n.op = self.cur_op
         self.trace.append(n)
         return n
+
+    # -- operations (C06): every node is tagged with the operation that created it;
+    # operation 0 is "static" (import time: module/class-body initialisers, defaults)
+    def begin_op(self, kind, instance=None):
+        self.ops.append({'kind': kind, 'instance': instance})
+        self.cur_op = len(self.ops) - 1
+        return self.cur_op
+
+    def static(self):
+        b = self
+
+        class _S:
+            def __enter__(self_inner):
+                self_inner.saved = b.cur_op
+                b.cur_op = 0
+
+            def __exit__(self_inner, *a):
+                b.cur_op = self_inner.saved
+        return _S()
 
     def const(self, v, at=None):
         return self.mk('const', v, at=at)
@@ -280,7 +308,39 @@ class Builder:
         return objn
 
     # -- name lookup -----------------------------------------------------
+    # -- path conditions -------------------------------------------------
+    def active_conds(self):
+        out = []
+        seen = set()
+        for fr in list(self.frames) + ([self.frame] if self.frame is not None else []):
+            if id(fr) in seen:
+                continue
+            seen.add(id(fr))
+            out.extend(fr.conds)
+        return out
+
+    def select(self, n, depth=0):
+        """phi(c, a, b) read on a path where c (or not c) is known: the
+        correlated-configuration-guard idiom (write under `if cfg == X`, read
+        under the same test)."""
+        if n is None or n.kind != 'phi' or depth > 8:
+            return n
+        conds = self.active_conds()
+        if not conds:
+            return n
+        c = n.args[0]
+        for ac, pol in conds:
+            r = implies(ac, pol, c)
+            if r is True:
+                return self.select(n.args[1], depth + 1)
+            if r is False:
+                return self.select(n.args[2], depth + 1)
+        return n
+
     def lookup(self, name, at=None):
+        return self.select(self._lookup(name, at))
+
+    def _lookup(self, name, at=None):
         f = self.frame
         fr = f
         while fr is not None:
@@ -296,6 +356,7 @@ class Builder:
     def lookup_global(self, module, name, at=None):
         key = (module.name, name)
         if key in self.gvars:
+            self.shared_reads.append((key, self.gvars[key], self.cur_op, at))
             return self.gvars[key]
         r = self.model.resolve(module, name)
         if r is None:
@@ -308,13 +369,15 @@ class Builder:
             m2, nm = r[1], r[2]
             key2 = (m2.name, nm)
             if key2 in self.gvars:
+                self.shared_reads.append((key2, self.gvars[key2], self.cur_op, at))
                 return self.gvars[key2]
             vals = m2.global_assigns.get(nm) or []
-            if vals and vals[-1] is not None:
-                # evaluate the module-level initialiser in module scope
-                node = self.eval_in_module(m2, vals[-1])
-            else:
-                node = self.unknown('module global %s' % nm, at)
+            with self.static():
+                if vals and vals[-1] is not None:
+                    # evaluate the module-level initialiser in module scope
+                    node = self.eval_in_module(m2, vals[-1])
+                else:
+                    node = self.mk('undef')
             self.gvars[key2] = node
             return node
         return self.entity(r, at)
@@ -354,6 +417,8 @@ class Builder:
         if key in self.gvars:
             return self.gvars[key]
         saved = self.frame
+        saved_op = self.cur_op
+        self.cur_op = 0
         # class body scope: earlier class attributes are visible as names
         fr = Frame(None, owner.module, {}, None)
         self.frame = fr
@@ -375,6 +440,7 @@ class Builder:
                 self.gvars[('classattr', owner.fullname, k)] = v
         finally:
             self.frame = saved
+            self.cur_op = saved_op
         return self.gvars.get(key) or self.unknown('class attribute %s' % name, at)
 
     # -- attribute access ------------------------------------------------
@@ -384,11 +450,19 @@ class Builder:
             o = base.val
             h = self.heap.setdefault(o.oid, {})
             if name in h:
-                return h[name]
+                v = self.select(h[name])
+                if base.op == 0:
+                    self.shared_reads.append((('heap', o.oid, o.cls.name, name), v, self.cur_op, at))
+                return v
             if o.symbolic and name in o.param_keys:
                 n = self.mk('param', name, at=at)
+                n.owner = o.oid
+                n.op = base.op
                 h[name] = n
                 return n
+            dyn = self.dynamic_class_attr(o.cls, name, at)
+            if dyn is not None:
+                return dyn
             m = o.cls.find_method(name)
             if m is not None:
                 return self.mk('closure', Closure(m, m.node, None, self_node=base, cls=m.cls,
@@ -425,6 +499,9 @@ class Builder:
             return self.unknown('module attr %s.%s' % (base.val, name), at)
         if k == 'class':
             ci = base.val
+            dyn = self.dynamic_class_attr(ci, name, at)
+            if dyn is not None:
+                return dyn
             m = ci.find_method(name)
             if m is not None:
                 return self.mk('closure', Closure(m, m.node, None, cls=m.cls, module=m.module), at=at)
@@ -445,6 +522,18 @@ class Builder:
         if k == 'closure' and name == 'terminal':
             return self.unknown('function attribute', at)
         return self.mk('attr', name, [base], at=at)
+
+    def dynamic_class_attr(self, ci, name, at):
+        """Class attribute assigned at run time (Cls.x = ..) -- shared by all instances."""
+        for c in ci.mro:
+            if isinstance(c, ClassInfo):
+                key = ('classattr', c.fullname, name)
+                v = self.gvars.get(key)
+                if v is not None and v.op != 0:
+                    v = self.select(v)
+                    self.shared_reads.append((key, v, self.cur_op, at))
+                    return v
+        return None
 
     def set_attr(self, base, name, value, at=None):
         if base.kind == 'obj':
@@ -496,8 +585,25 @@ class Builder:
         return self.mk('unop', op, [x], at=e)
 
     def e_BoolOp(self, e):
-        vals = [self.eval(v) for v in e.values]
+        # short-circuit evaluation: later operands are evaluated under the path
+        # condition that the earlier ones were true (and) / false (or)
         op = 'and' if isinstance(e.op, ast.And) else 'or'
+        vals = []
+        pushed = 0
+        f = self.frame
+        try:
+            for v in e.values:
+                n = self.eval(v)
+                vals.append(n)
+                if n.kind == 'const' and isinstance(n.val, bool):
+                    if (op == 'and' and n.val is False) or (op == 'or' and n.val is True):
+                        break
+                    continue
+                f.conds.append((n, op == 'and'))
+                pushed += 1
+        finally:
+            for _ in range(pushed):
+                f.conds.pop()
         return self.boolop(op, vals, e)
 
     def e_Compare(self, e):
@@ -892,12 +998,22 @@ class Builder:
             else:
                 j = i - (len(params) - ndef)
                 if j >= 0:
-                    saved = self.frame
-                    self.frame = Frame(clo.func, module, {}, None, parent=clo.frame)
-                    try:
-                        locals_[p] = self.eval(defaults[j])
-                    finally:
-                        self.frame = saved
+                    ck = (id(node), j)
+                    if ck in self.default_cache and clo.frame is None:
+                        locals_[p] = self.default_cache[ck]
+                    else:
+                        saved = self.frame
+                        self.frame = Frame(clo.func, module, {}, None, parent=clo.frame)
+                        try:
+                            if clo.frame is None:
+                                with self.static():
+                                    locals_[p] = self.eval(defaults[j])
+                                self.default_cache[ck] = locals_[p]
+                                self.default_nodes[locals_[p].nid] = (clo.func, p)
+                            else:
+                                locals_[p] = self.eval(defaults[j])
+                        finally:
+                            self.frame = saved
                 else:
                     locals_[p] = self.unknown('missing argument %s' % p, at)
         if a.vararg is not None:
@@ -929,6 +1045,7 @@ class Builder:
         saved = self.frame
         self.frame = fr
         self.stack.append(key)
+        self.frames.append(fr)
         try:
             if isinstance(node, ast.Lambda):
                 return self.eval(node.body)
@@ -938,6 +1055,7 @@ class Builder:
             return self.join_returns(fr, at)
         finally:
             self.stack.pop()
+            self.frames.pop()
             self.frame = saved
 
     def join_returns(self, fr, at):
@@ -1060,6 +1178,7 @@ class Builder:
                     keys.append(idx.val)
                     vals.append(v)
                 new = self.mk('dict', keys, vals, at=t)
+                self.mutations.append(('subscript store', base, t, self.frame.func))
             else:
                 new = self.mk('store', None, [base, idx, v], at=t)
                 self.mutations.append(('subscript store', base, t, self.frame.func))
@@ -1355,6 +1474,30 @@ class Builder:
         self.trace.append(n)
         return n
 
+    def op_construct(self, cls, ctor_args=None, label=''):
+        """Operation: construct a symbolic instance of cls.  ctor_args: dict of
+        explicit constructor arguments (Nodes)."""
+        self.frame = Frame(None, cls.module, {}, None)
+        op = self.begin_op('construct %s%s' % (cls.name, label))
+        kw = {'**': self.mk('kwargs')}
+        kw.update(ctor_args or {})
+        objn = self.instantiate(cls, symbolic=True, kw=kw)
+        self.ops[op]['instance'] = objn.val.oid
+        return objn, op
+
+    def op_run(self, objn, label=''):
+        cls = objn.val.cls
+        runm = cls.find_method('_run')
+        if runm is None:
+            raise AnalysisError('no _run on %s' % cls.fullname)
+        op = self.begin_op('call %s%s' % (cls.name, label), objn.val.oid)
+        r = self.mk('input', 'r' + label)
+        t = self.mk('input', 't' + label)
+        self.frame = Frame(None, cls.module, {}, None)
+        clo = Closure(runm, runm.node, None, self_node=objn, cls=runm.cls, module=runm.module)
+        res = self.call_closure(clo, [r, t], {}, runm.node)
+        return res, op, (r, t)
+
     def run_solver(self, cls, run=True, point_name='r', time_name='t'):
         """Symbolic instance of solver class `cls` (every key of `parameters`
         is a Param node), constructor chain, then _run(points, t)."""
@@ -1371,6 +1514,58 @@ class Builder:
             clo = Closure(runm, runm.node, None, self_node=objn, cls=runm.cls, module=runm.module)
             res = self.call_closure(clo, [r, t], {}, runm.node)
         return objn, res
+
+
+def same_cond(a, b, depth=0):
+    """Structural equality of two condition nodes (identity shortcut)."""
+    if a is b:
+        return True
+    if depth > 10 or a.kind != b.kind:
+        return False
+    if a.kind == 'const':
+        return type(a.val) is type(b.val) and a.val == b.val
+    if a.kind in ('cmp', 'bool', 'unop', 'binop', 'phi', 'sub', 'attr', 'call', 'mcall', 'tuple', 'list'):
+        if a.val != b.val or len(a.args) != len(b.args):
+            return False
+        return all(same_cond(x, y, depth + 1) for x, y in zip(a.args, b.args))
+    return False
+
+
+def implies(known, pol, c, depth=0):
+    """Does the known fact (known == pol) decide condition c?  True / False / None."""
+    if depth > 6:
+        return None
+    if same_cond(known, c):
+        return pol
+    # known: not X
+    if known.kind == 'unop' and known.val == 'not':
+        return implies(known.args[0], not pol, c, depth + 1)
+    if c.kind == 'unop' and c.val == 'not':
+        r = implies(known, pol, c.args[0], depth + 1)
+        return None if r is None else (not r)
+    # known conjunction true / disjunction false decides its members
+    if known.kind == 'bool' and ((known.val == 'and' and pol) or (known.val == 'or' and not pol)):
+        for x in known.args:
+            r = implies(x, pol, c, depth + 1)
+            if r is not None:
+                return r
+    # c conjunction: false if a member is known false; c disjunction: true if a member known true
+    if c.kind == 'bool':
+        rs = [implies(known, pol, x, depth + 1) for x in c.args]
+        if c.val == 'and':
+            if any(r is False for r in rs):
+                return False
+            if all(r is True for r in rs):
+                return True
+        else:
+            if any(r is True for r in rs):
+                return True
+            if all(r is False for r in rs):
+                return False
+    # lifted comparisons on a configuration constant: phi trees with constant bool leaves
+    if known.kind == 'phi' and c.kind == 'phi':
+        return None
+    return None
 
 
 def _as_load(t):
